@@ -97,7 +97,9 @@ class FortranRegularExpressions:
     )
     PARAMETER_VAL: Pattern = compile(r"\w*[\s\&]*=(([\s\&]*[\w\.\-\+\*\/\'\"])*)", I)
     TATTR_LIST: Pattern = compile(
-        r"[ ]*,[ ]*(PUBLIC|PRIVATE|ABSTRACT|EXTENDS[ ]*\([ ]*\w*[ ]*\))", I
+        r"[ ]*,[ ]*(PUBLIC|PRIVATE|ABSTRACT|BIND[ ]*\([ ]*C[ ]*\)"
+        r"|EXTENDS[ ]*\([ ]*\w*[ ]*\))",
+        I,
     )
     VIS: Pattern = compile(r"[ ]*\b(PUBLIC|PRIVATE)\b", I)
     WORD: Pattern = compile(r"[a-z_][\w\$]*", I)
